@@ -1,8 +1,8 @@
 package mp4
 
 import (
-	"fmt"
 	"encoding/binary"
+	"fmt"
 	"io"
 
 	"github.com/Eyevinn/mp4ff/bits"
